@@ -428,35 +428,37 @@ func (r *Reader) checkBodySize(position int64, size int) (bool, error) {
 		return true, nil
 	}
 
-	var fileSize int64
-	if r.ra != nil {
-		fileSize = int64(r.ra.Len())
-	} else {
-		stat, err := r.r.Stat()
-		if err != nil {
-			return false, fmt.Errorf("read log stat: %w", err)
-		}
-		fileSize = stat.Size()
+	fileSize, err := r.Size()
+	if err != nil {
+		return false, err
 	}
 	return position+int64(size) <= fileSize, nil
+}
+
+// Size returns the current size of the log file
+func (r *Reader) Size() (int64, error) {
+	if r.ra != nil {
+		return int64(r.ra.Len()), nil
+	}
+	stat, err := r.r.Stat()
+	if err != nil {
+		return -1, fmt.Errorf("read log stat: %w", err)
+	}
+	return stat.Size(), nil
 }
 
 func (r *Reader) readV1(position int64, msg *Message) (nextPosition int64, err error) {
 	// Read header
 	var headerBytes [v1HeaderSize]byte
-	var n int
 	if r.ra != nil {
-		n, err = r.ra.ReadAt(headerBytes[:], position)
+		_, err = r.ra.ReadAt(headerBytes[:], position)
 	} else {
-		n, err = r.r.ReadAt(headerBytes[:], position)
+		_, err = r.r.ReadAt(headerBytes[:], position)
 	}
 	switch {
 	case err == nil:
 		// all good, continue
 	case errors.Is(err, io.ErrUnexpectedEOF):
-		return -1, errShortHeader
-	case errors.Is(err, io.EOF) && n > 0:
-		// ReadAt reports a partial read as io.EOF: the file ends inside a header
 		return -1, errShortHeader
 	default:
 		return -1, fmt.Errorf("read header: %w", err)
@@ -523,19 +525,15 @@ func (r *Reader) readV1(position int64, msg *Message) (nextPosition int64, err e
 func (r *Reader) readV2(position int64, msg *Message) (nextPosition int64, err error) {
 	// Read header
 	var headerBytes [v2HeaderSize]byte
-	var n int
 	if r.ra != nil {
-		n, err = r.ra.ReadAt(headerBytes[:], position)
+		_, err = r.ra.ReadAt(headerBytes[:], position)
 	} else {
-		n, err = r.r.ReadAt(headerBytes[:], position)
+		_, err = r.r.ReadAt(headerBytes[:], position)
 	}
 	switch {
 	case err == nil:
 		// all good, continue
 	case errors.Is(err, io.ErrUnexpectedEOF):
-		return -1, errShortHeader
-	case errors.Is(err, io.EOF) && n > 0:
-		// ReadAt reports a partial read as io.EOF: the file ends inside a header
 		return -1, errShortHeader
 	default:
 		return -1, fmt.Errorf("read header: %w", err)
